@@ -11,6 +11,7 @@ import (
 	"net/http"
 	"os"
 	"path/filepath"
+	"sort"
 	"strings"
 	"sync"
 
@@ -33,12 +34,13 @@ type caseRec struct {
 	Env  map[string][]string `json:"env"`
 }
 
+type netrcEntry struct {
+	Machine  string `json:"machine"`
+	Password string `json:"password"`
+}
 type netrcRec struct {
-	Entries []struct {
-		Machine  string `json:"machine"`
-		Password string `json:"password"`
-	} `json:"entries"`
-	Expect map[string]string `json:"expect"`
+	Entries []netrcEntry      `json:"entries"`
+	Expect  map[string]string `json:"expect"`
 }
 
 type input struct {
@@ -111,9 +113,20 @@ func ask(ctx context.Context, cfg *connectclient.Config, rec *recorder, host str
 	return l[len(l)-1]
 }
 
-func writeNetrc(path string, n netrcRec) error {
+// writeNetrc writes the entries in an order that depends on variant: as given, reversed, or with the default entry
+// first (a .netrc is a list: the entry of a host counts wherever it stands, the default entry only when none does).
+func writeNetrc(path string, n netrcRec, variant int) error {
 	var sb strings.Builder
-	for _, e := range n.Entries {
+	entries := append([]netrcEntry{}, n.Entries...)
+	switch variant % 3 {
+	case 1:
+		for l, r := 0, len(entries)-1; l < r; l, r = l+1, r-1 {
+			entries[l], entries[r] = entries[r], entries[l]
+		}
+	case 2:
+		sort.SliceStable(entries, func(i, j int) bool { return entries[i].Machine == "default" && entries[j].Machine != "default" })
+	}
+	for _, e := range entries {
 		if e.Machine == "default" {
 			fmt.Fprintf(&sb, "default\n  login user\n  password %s\n", pwText[e.Password])
 			continue
@@ -180,7 +193,7 @@ func run(in []byte) (*reg.Result, error) {
 					nets = []netrcRec{inp.Netrcs[i%len(inp.Netrcs)]}
 				}
 				for ni, n := range nets {
-					if err := writeNetrc(netrcPath, n); err != nil {
+					if err := writeNetrc(netrcPath, n, i+ni); err != nil {
 						emu.Lock()
 						firstErr = err
 						emu.Unlock()
